@@ -236,6 +236,7 @@ pub fn c06(tier: &str, seed: u64) {
   let n = if quick(tier) { 120 } else { 2500 };
   for case_i in 0..n {
     let t: u32 = match case_i % 6 {
+      0 if case_i % 30 == 0 => *g.pick(&[255u32, 256, 257, 65535, 65536, 65537]),
       0 => 1,
       1 => 2,
       2 => g.range(3, 12) as u32,
@@ -243,7 +244,7 @@ pub fn c06(tier: &str, seed: u64) {
       4 if !quick(tier) || case_i % 24 == 4 => g.range(100, 600) as u32,
       _ => g.range(1, 30) as u32,
     };
-    let k = g.below(if quick(tier) { 5 } else { 17 }) as usize;
+    let k = if t > 1000 { 1 } else { g.below(if quick(tier) { 5 } else { 17 }) as usize };
     let elems: Vec<BigUint> = (0..k).map(|_| rand_big(&mut g, &lat)).collect();
     let mut secret = Vec::new();
     for e in &elems {
@@ -278,7 +279,7 @@ pub fn c06(tier: &str, seed: u64) {
       .collect();
     // shares from both sources
     let mut shares: Vec<Share> = Vec::new();
-    let nnext = g.range(1, (t as u64 + 3).min(40)) as usize;
+    let nnext = if t > 1000 { 3 } else { g.range(1, (t as u64 + 3).min(40)) as usize };
     for i in 0..nnext {
       let s = ev.next().unwrap();
       if big(&s.x) != BigUint::from(i as u64 + 1) % &p {
@@ -287,7 +288,7 @@ pub fn c06(tier: &str, seed: u64) {
       shares.push(s);
     }
     let mut grng = RecRng { inner: Sm(g.next()), words: vec![], zero_next: if g.chance(1, 4) { 3 } else { 0 } };
-    let ngen = (t as usize + 2).saturating_sub(nnext).max(2);
+    let ngen = if t > 1000 { 1 } else { (t as usize + 2).saturating_sub(nnext).max(2) };
     for _ in 0..ngen {
       shares.push(ev.gen(&mut grng));
     }
@@ -357,6 +358,41 @@ pub fn c06(tier: &str, seed: u64) {
         }
       }
       case(true);
+    }
+    // shares at CHOSEN points (related values: equal modulo 2^64 / 2^128, adjacent, negatives),
+    // built with the independent evaluation: exactly t distinct of them must recover
+    if k >= 1 && t >= 2 && t <= 12 {
+      let mut cand: Vec<BigUint> = Vec::new();
+      for d in 1..5u32 {
+        cand.push(BigUint::from(d));
+        cand.push((BigUint::one() << 128) + d);
+        cand.push((BigUint::one() << 64) + d);
+        cand.push(&p - d);
+      }
+      g.shuffle(&mut cand);
+      // make sure a related pair is inside the window
+      let d0 = BigUint::from(1 + g.below(4) as u32);
+      let mut xs: Vec<BigUint> = vec![d0.clone(), (BigUint::one() << 128) + &d0];
+      for c in cand {
+        if xs.len() < t as usize && !xs.contains(&c) {
+          xs.push(c);
+        }
+      }
+      if xs.len() == t as usize {
+        g.shuffle(&mut xs);
+        let sel: Vec<Share> = xs
+          .iter()
+          .map(|x| Share { x: fp_from_big(x), y: polys.iter().map(|pl| fp_from_big(&eval_big(pl, x, &p))).collect() })
+          .collect();
+        match sharks.recover(&sel) {
+          Ok(v) if v == want => {}
+          other => fail(
+            "recover_failed_on_chosen_distinct_points",
+            &[("t", t.to_string()), ("xs", format!("{:?}", xs.iter().map(|x| x.to_str_radix(16)).collect::<Vec<_>>())), ("secret", hex(&want)), ("got", format!("{:?}", other.map(|v| hex(&v))))],
+          ),
+        }
+        case(true);
+      }
     }
     // fewer than t distinct => refused
     if t >= 2 {
